@@ -1011,6 +1011,7 @@ type edgeWit struct {
 
 func main() {
 	out := flag.String("out", "", "output directory (lean/Spine/Generated)")
+	instrDir := flag.String("instr", "", "also write an instrumented copy of the tree under test to this directory (dynamic cross-check of the analyser)")
 	flag.Parse()
 	if *out == "" {
 		fmt.Fprintln(os.Stderr, "usage: lockgraph -out <dir>")
@@ -1032,6 +1033,19 @@ func main() {
 	}
 	prog, spkgs := ssautil.AllPackages(pkgs, ssa.BuilderMode(0))
 	prog.Build()
+	instrSummary := ""
+	if *instrDir != "" {
+		// after the SSA build (which only reads the syntax trees); the instrumenter rewrites them
+		defer func() {
+			s, err := instrument(pkgs, repo, *instrDir)
+			if err != nil {
+				fmt.Fprintln(os.Stderr, "instrument:", err)
+				os.Exit(1)
+			}
+			fmt.Println(s)
+		}()
+	}
+	_ = instrSummary
 	a := &analysis{prog: prog, fset: prog.Fset, cg: cha.CallGraph(prog), repo: repo, spawned: map[*ssa.Function]bool{}}
 	a.buildSiteIndex()
 	a.collect(spkgs)
@@ -1254,8 +1268,9 @@ func main() {
 		How   string
 	}
 	perField := map[string][]row{}
-	sites := map[string]set{}      // "spine/file.go:line" -> fields accessed there after construction
-	funcFields := map[string]set{} // normalised function name -> fields accessed in it after construction
+	sites := map[string]set{}                  // "spine/file.go:line" -> fields accessed there after construction
+	allSites := map[string]map[string]string{} // "spine/file.go:line" -> field -> "post" | "ctor" | "both"
+	funcFields := map[string]set{}             // normalised function name -> fields accessed in it after construction
 	postWrite := map[string]bool{}
 	allFields := set{}
 	rowIdx := map[string]int{}
@@ -1278,6 +1293,22 @@ func main() {
 			post := !ac.ctor
 			if post && ac.write {
 				postWrite[ac.field] = true
+			}
+			{
+				// every access the analyser saw, by site and phase (the dynamic cross-check of the
+				// analyser compares the accesses observed in instrumented runs with this table)
+				p := a.pos(ac.pos)
+				if allSites[p] == nil {
+					allSites[p] = map[string]string{}
+				}
+				ph := "ctor"
+				if post {
+					ph = "post"
+				}
+				if old, ok := allSites[p][ac.field]; ok && old != ph {
+					ph = "both"
+				}
+				allSites[p][ac.field] = ph
 			}
 			if post {
 				p := a.pos(ac.pos)
@@ -1532,6 +1563,7 @@ func main() {
 		}
 	}
 	js["sites"] = jsites
+	js["all_sites"] = allSites
 	jff := map[string][]string{}
 	for fn, fs := range funcFields {
 		for _, f := range fs.sorted() {
